@@ -184,6 +184,34 @@ def main(tier, only=None):
             if len(hi_) != 3: log('C08: runtime base %s: directories did not land in the last groups (%s)' % (name, hi_)); continue
             fsweep._cache[name] = open(p, 'rb').read(); os.unlink(p)
             bases = bases + [name]
+    # runtime-built bases whose inodes are LOW but whose xattr blocks, data blocks, directory blocks and slow-symlink blocks sit in the LAST groups (the low groups
+    # were full of ballast when they were allocated): a shrink relocates the blocks while the inodes keep their numbers
+    if not only:
+        DBG = tool('debugfs')
+        for name, feat, isz in ((('hiblk', '^metadata_csum,uninit_bg', '128'), ('hiblk_csum', 'metadata_csum,64bit', '256')) if quick else
+                                (('hiblk', '^metadata_csum,uninit_bg', '128'), ('hiblk_csum', 'metadata_csum,64bit', '256'), ('hiblk_ext2', None, '128'))):
+            p = os.path.join(scratch(), name + '.img')
+            argv = [tool('mke2fs'), '-q', '-F', '-b', '1024', '-g', '256', '-N', '128', '-I', isz, '-U', '6b33f586-a183-4383-921d-30ab132db9b9', '-E', 'hash_seed=a0c4b9f1-7e1d-4c6b-8f4e-9d2f1b3c5a70']
+            argv += ['-t', 'ext4', '-O', '^has_journal,^resize_inode,^flex_bg,' + feat] if feat else ['-t', 'ext2', '-O', '^resize_inode']
+            rc, out = run(argv + [p, str(8 * 256 + 1)], timeout=120)
+            if rc != 0: log('C08: runtime base %s: mke2fs exit %s' % (name, rc)); continue
+            small = os.path.join(scratch(), 'hb.small'); open(small, 'wb').write(bytes((k * 3 + 1) & 0xff for k in range(700)))
+            ballast = os.path.join(scratch(), 'hb.ballast'); open(ballast, 'wb').write(b'\xbb' * (1024 * 1250))
+            late = os.path.join(scratch(), 'hb.late'); open(late, 'wb').write(bytes((k * 11 + 5) & 0xff for k in range(9000)))
+            cmds = ['write %s /a' % small, 'write %s /b' % small, 'mkdir /dd', 'mknod /pipe p', 'write %s /ballast' % ballast,
+                    'ea_set /a user.big %s' % ('A' * 300), 'ea_set /b user.other %s' % ('B' * 200), 'ea_set /dd user.dir %s' % ('D' * 300), 'ea_set /pipe user.p %s' % ('P' * 300),
+                    'symlink /slow %s' % ('s' * 200), 'ea_set /slow user.s %s' % ('S' * 300), 'write %s /late' % late, 'mkdir /dd/sub', 'write %s /dd/sub/x' % small, 'expand_dir /dd',
+                    'rm /ballast']
+            sp = os.path.join(scratch(), 'hb.dbg'); open(sp, 'w').write('\n'.join(cmds) + '\n')
+            run([DBG, '-w', '-f', sp, p], timeout=120)
+            if run([E2FSCK, '-fn', p], timeout=120)[0] != 0:
+                log('C08: runtime base %s not usable' % name); continue
+            d_ = open(p, 'rb').read(); im_ = Image(d_)
+            ents = {n: ino for n, ino, ft, l in im_.read_dir(im_.inode(2))}
+            acl = [im_.inode(ents[n]).file_acl for n in (b'a', b'b', b'dd', b'pipe', b'slow')]
+            if min(acl) < 4 * 256 or max(ents.values()) > 40: log('C08: runtime base %s: xattr blocks did not land in the last groups (%s)' % (name, acl)); continue
+            fsweep._cache[name] = d_; os.unlink(p)
+            bases = bases + [name]
     TREES = {b: xtree.tree(Image(fsweep.base_data(b))) for b in bases}
     jobs = []
     for b in bases:
@@ -215,7 +243,7 @@ def main(tier, only=None):
         if st == 'bad':
             ck.violation(cid, {'base': j[1], 'args': j[2], 'what': msg, 'resize2fs': r})
     ck.add(evaluations=len(jobs), distinct_nontrivial=stat.get('ok', 0), states=len(jobs), transitions=len(jobs), traces_validated_against_impl=len(jobs),
-           rule='populated corpus image x every target size (quick: all sizes within 6 blocks of a group boundary or of the current size, every 13th otherwise) from 64 blocks to 3x / +6 groups, plus -M -P -b/-s -S; plus runtime-built filesystems whose directories (multi-block with an empty block / a block of hard links only / indexed), xattr-carrying files and symlinks have their inodes in the last groups so that every shrink renumbers them; plus runtime-built filesystems with 16/32/64-group flex groups (and packed_meta_blocks) x every shrink target that ends inside the metadata area of a flex group; '
+           rule='populated corpus image x every target size (quick: all sizes within 6 blocks of a group boundary or of the current size, every 13th otherwise) from 64 blocks to 3x / +6 groups, plus -M -P -b/-s -S; plus runtime-built filesystems whose xattr/data/directory blocks lie in the last groups while their inodes are low (blocks relocate, inodes stay), plus runtime-built filesystems whose directories (multi-block with an empty block / a block of hard links only / indexed), xattr-carrying files and symlinks have their inodes in the last groups so that every shrink renumbers them; plus runtime-built filesystems with 16/32/64-group flex groups (and packed_meta_blocks) x every shrink target that ends inside the metadata area of a flex group; '
                 'oracle: success => reported size = s_blocks_count, e2fsck -fn = 0, xck.check clean, xck.tree unchanged, and on the traced runs the error-flag invariant over every prefix of the write trace; '
                 'refusal => byte-identical image; mid-run failure => flagged superblock.  distinct_nontrivial = successful resizes',
            samples=[jobs[0][0], jobs[len(jobs) // 3][0], jobs[-1][0]])
